@@ -16,10 +16,11 @@ import logging
 
 import numpy as np
 import z3
+from harness import pipeline as PP
 
 from symx import loader
 from symx.core import Sym, Ctx, symarray, qval, is_nan, PathAbort
-from symx.report import fl, concretiser, pc_holds_numerically, real_witness
+from symx.report import fl, concretiser, pc_holds_numerically, real_witness, shaped_model
 
 FUNCTIONS_Q = ["window_rejection.frequency_domain_window_rejection", "window_rejection._frequency_domain_window_rejection",
                "hvsr_traditional.HvsrTraditional.mean_fn_frequency", "hvsr_traditional.HvsrTraditional.std_fn_frequency",
@@ -32,7 +33,7 @@ ASSUMPTIONS = ["floats as reals", "the estimators called by the algorithm are th
 OUTSIDE = ["more windows than the bound", "find_peaks_kwargs", "rounding in the 0.01 convergence tests"]
 BOUNDS = {"quick": {"windows": "3-4", "frequencies": 3, "max_iterations": "1-3", "azimuths": 2},
           "thorough": {"windows": "3-5", "frequencies": "3-4", "max_iterations": "1-4", "azimuths": 2}}
-INSTANCE_TIMEOUT = {"quick": 160, "thorough": 1700}
+INSTANCE_TIMEOUT = {"quick": 160, "thorough": 700}
 DPAIRS = [("lognormal", "lognormal"), ("normal", "normal"), ("lognormal", "normal"), ("normal", "lognormal")]
 _L = None
 
@@ -68,6 +69,9 @@ def instances(tier):
     for kind in ("traditional", "azimuthal"):
         for rng in ("none", "sym"):
             out.append({"name": f"outer_{kind}_{rng}", "func": "run_outer", "kwargs": {"kind": kind, "rng": rng}})
+    # the same object used twice: a first query / rejection under one search range, then the rejection under another
+    for kind in ("traditional", "azimuthal"):
+        out.append({"name": f"e2e_reuse_{kind}", "func": "run_e2e", "kwargs": {"kind": kind, "maxit": 2, "w": 3, "nf": 5, "reuse": True}, "timeout": 230 if tier == "quick" else 700})
     for kind in ("traditional", "azimuthal"):
         for mi in ([1, 2] if tier == "quick" else [1, 2, 3]):
             out.append({"name": f"e2e_{kind}_it{mi}", "func": "run_e2e", "kwargs": {"kind": kind, "maxit": mi, "w": 3, "nf": 3 if tier == "quick" else 4},
@@ -124,7 +128,7 @@ def make_state(ctx, w, nf, tag=""):
     HT = L()["hvsr_traditional"].HvsrTraditional
     frq = np.arange(1.0, nf + 1)
     amp = symarray("a" + tag, (w, nf), ctx, pos="exp")
-    h = HT.__new__(HT)
+    h = PP.shell_traditional(HT)
     h.frequency, h.amplitude, h.n_curves, h.meta = frq, amp, w, {}
     h._main_peak_frq = np.array([Sym.posvar(f"pf{tag}{i}", ctx) for i in range(w)], dtype=object)
     h._main_peak_amp = np.array([Sym.posvar(f"pa{tag}{i}", ctx) for i in range(w)], dtype=object)
@@ -135,8 +139,7 @@ def make_state(ctx, w, nf, tag=""):
 
 
 def shadow(h):
-    g = h.__class__.__new__(h.__class__)
-    g.__dict__.update(h.__dict__)
+    g = PP.shallow_twin(h)
     g.valid_window_boolean_mask = h.valid_window_boolean_mask.copy()
     g.valid_peak_boolean_mask = h.valid_peak_boolean_mask.copy()
     g._main_peak_frq = h._main_peak_frq.copy()
@@ -373,7 +376,7 @@ def run_outer(rep, tier, kind, rng):
                   witness=lambda m: {"kind": "outer", "what": "max", "obj": kind}, key="outer-max")
 
 
-def run_e2e(rep, tier, kind, maxit, w, nf):
+def run_e2e(rep, tier, kind, maxit, w, nf, reuse=False):
     """Whole public function on objects built by the real constructor, against peak search + reference loop."""
     WR = L()["window_rejection"]
     HT = L()["hvsr_traditional"].HvsrTraditional
@@ -390,12 +393,22 @@ def run_e2e(rep, tier, kind, maxit, w, nf):
             objs = [HT(frq, a) for a in amps]
             return HA(objs, [0.0, 90.0]) if kind == "azimuthal" else objs[0]
         top, ref = build(), build()
-        got = outcome(lambda: WR.frequency_domain_window_rejection(top, n=n, max_iterations=maxit))
+        sr = (None, None)
+        if reuse:
+            # earlier use of the very same object under the default range: statistics queried, mean-curve peak queried
+            for o in (top.hvsrs if kind == "azimuthal" else [top]):
+                try:
+                    o.mean_curve_peak("lognormal")
+                    o.mean_fn_frequency("lognormal")
+                except (ValueError, ZeroDivisionError):
+                    pass
+            sr = (None, 4.4)
+        got = outcome(lambda: WR.frequency_domain_window_rejection(top, n=n, max_iterations=maxit, search_range_in_hz=sr))
 
         def refrun():
             best = 0
             for o in (ref.hvsrs if kind == "azimuthal" else [ref]):
-                o.update_peaks_bounded(search_range_in_hz=(None, None))
+                o.update_peaks_bounded(search_range_in_hz=sr)
                 best = max(best, reference_fdwra(o, n, maxit, "lognormal", "lognormal"))
             return best
         want = outcome(refrun)
@@ -409,10 +422,10 @@ def run_e2e(rep, tier, kind, maxit, w, nf):
         if ok:
             rep.discharged += 1
             continue
-        r, m = ctx.model()
+        r, m = shaped_model(ctx)
         if r == z3.sat:
-            val = concretiser(real_witness(ctx, model=m) or m)
-            spec = {"kind": "e2e", "obj": kind, "maxit": maxit, "n": val(n), "frequency": list(range(1, nf + 1)),
+            val = concretiser(real_witness(ctx, model=m, tries=600) or m)
+            spec = {"kind": "e2e", "obj": kind, "maxit": maxit, "reuse": reuse, "n": val(n), "frequency": list(range(1, nf + 1)),
                     "amplitude": [[[val(x) for x in row] for row in a] for a in amps], "engine_got": str(got), "engine_want": str(want)}
             rep.candidate(spec, f"end-to-end: code {got} {mg} vs reference {want} {mw}", key="e2e")
 
@@ -519,12 +532,21 @@ def replay(spec):
             objs = [hvsrpy.HvsrTraditional(frq, np.array([[_num(x) for x in row] for row in a])) for a in spec["amplitude"]]
             return hvsrpy.HvsrAzimuthal(objs, [0.0, 90.0]) if spec["obj"] == "azimuthal" else objs[0]
         top, ref = build(), build()
-        got = _out(lambda: WR.frequency_domain_window_rejection(top, n=spec["n"], max_iterations=spec["maxit"]))
+        sr = (None, None)
+        if spec.get("reuse"):
+            for o in (top.hvsrs if spec["obj"] == "azimuthal" else [top]):
+                try:
+                    o.mean_curve_peak("lognormal")
+                    o.mean_fn_frequency("lognormal")
+                except (ValueError, ZeroDivisionError):
+                    pass
+            sr = (None, 4.4)
+        got = _out(lambda: WR.frequency_domain_window_rejection(top, n=spec["n"], max_iterations=spec["maxit"], search_range_in_hz=sr))
 
         def refrun():
             best = 0
             for o in (ref.hvsrs if spec["obj"] == "azimuthal" else [ref]):
-                o.update_peaks_bounded(search_range_in_hz=(None, None))
+                o.update_peaks_bounded(search_range_in_hz=sr)
                 best = max(best, _py_reference(o, spec["n"], spec["maxit"], "lognormal", "lognormal"))
             return best
         want = _out(refrun)
